@@ -98,7 +98,7 @@ fn body_fn(width: u16, kind: usize) -> Func {
 }
 
 pub fn run(cx: &mut Ctx) {
-    let widths: Vec<u16> = if cx.thorough { vec![1, 2, 4, 8, 16] } else { vec![1, 2, 4, 8] };
+    let widths: Vec<u16> = vec![1, 2, 4, 8, 16];
     let mut case = 0u64;
     for width in widths {
         for kind in 0..3usize {
@@ -166,11 +166,23 @@ fn one_loop(cx: &mut Ctx, width: u16, kind: usize, debug: bool, case: u64) {
         exits.extend((0..n).map(Some));
     } else {
         let mut rng = cx.rng(&[case]);
-        for j in [0u128, 1, 2, 255, 256, 257, 32767, 32768, 65534, 65535] {
-            exits.push(Some(j));
-        }
-        for _ in 0..6 {
-            exits.push(Some(rng.below(65536) as u128));
+        if cx.thorough {
+            for j in [0u128, 1, 2, 255, 256, 257, 32767, 32768, 65534, 65535] {
+                exits.push(Some(j));
+            }
+            for _ in 0..6 {
+                exits.push(Some(rng.below(65536) as u128));
+            }
+        } else {
+            // the quick tier runs the 16-bit counter only up to early exits (each costs at most
+            // a few thousand body evaluations on a correct tree)
+            exits.clear();
+            for j in [0u128, 1, 2, 3, 255, 256, 257, 511, 512, 513] {
+                exits.push(Some(j));
+            }
+            for _ in 0..4 {
+                exits.push(Some(rng.below(3000) as u128));
+            }
         }
     }
     for (ei, exit) in exits.iter().enumerate() {
